@@ -133,6 +133,17 @@ impl Default for Hooks {
     }
 }
 
+impl Hooks {
+    pub fn for_scenario(sc: &Scenario) -> Self {
+        let mut h = Self::default();
+        if let Some(v) = &sc.violation {
+            let rw = crate::inject::rewriter(v.clone());
+            if v.victim == "s" { h.server_tap.rx_rewrite = Some(rw); } else { h.client_tap.rx_rewrite = Some(rw); }
+        }
+        h
+    }
+}
+
 /// runs the scenario to completion and returns its events (first event: the scenario itself)
 pub fn run(sc: &Scenario, hooks: Hooks) -> Vec<Value> {
     let _ = take_events();
